@@ -74,9 +74,10 @@ fn snapshot(s: &Simulator) -> (Vec<Word>, Vec<Word>, u16) { ((0..=0xFFFFu16).map
 fn run29(ctx: &mut Ctx) {
     let Some(os) = os_reference() else { ctx.notes.push("could not read or assemble /repo/src/os.asm".into()); return };
     // (a) fresh machines
-    ctx.cases(0, 48, |ctx, rng, idx| {
-        let init = match idx % 3 { 0 => MachineInitStrategy::Known { value: rng.u16() }, 1 => MachineInitStrategy::Seeded { seed: rng.next() }, _ => MachineInitStrategy::Unseeded };
-        let flags = SimFlags { strict: idx & 1 != 0, use_real_traps: idx & 2 != 0, debug_frames: idx & 4 != 0, ignore_privilege: idx & 8 != 0, machine_init: init };
+    ctx.cases(0, 96, |ctx, rng, idx| {
+        // known values and seeds include the edge values 0 and all-ones
+        let init = match idx % 3 { 0 => MachineInitStrategy::Known { value: match (idx / 3) % 4 { 0 => 0, 1 => 0xFFFF, _ => rng.u16() } }, 1 => MachineInitStrategy::Seeded { seed: match (idx / 3) % 4 { 0 => 0, 1 => u64::MAX, _ => rng.next() } }, _ => MachineInitStrategy::Unseeded };
+        let flags = SimFlags { strict: rng.bool(), use_real_traps: rng.bool(), debug_frames: rng.bool(), ignore_privilege: rng.bool(), machine_init: init };
         ctx.eval();
         let case = || Json::obj().set("flags", format!("{flags:?}"));
         let Some(sim) = ctx.no_panic("Simulator::new", case, || Simulator::new(flags)) else { return };
@@ -252,13 +253,15 @@ fn digest(s: &Simulator) -> u64 { let mut h = 0xcbf29ce484222325u64; for a in 0.
 fn run31(ctx: &mut Ctx) {
     let n = ctx.tier.pick(1_000, 100_000);
     ctx.cases(0, n, |ctx, rng, idx| {
-        let init = if idx % 3 == 0 { MachineInitStrategy::Known { value: rng.u16() } } else { MachineInitStrategy::Seeded { seed: rng.next() } };
+        // seeds (machine and timers) include the edge values 0 and u64::MAX
+        let init = if idx % 3 == 0 { MachineInitStrategy::Known { value: rng.u16() } } else { MachineInitStrategy::Seeded { seed: match rng.below(8) { 0 => 0, 1 => u64::MAX, _ => rng.next() } } };
         let fl = rng.chance(1, 5);
         let prog = gen_user_prog(rng, &ProgOpts { faults: fl, ..ProgOpts::default() });
-        let isr = gen_isr(rng, 0x1000, false);
-        let kbd: Vec<u8> = (0..prog.kbd_needed + 1).map(|_| rng.next() as u8).collect();
+        // half of the service routines read KBDR (in supervisor mode; the queue may well be empty by then: a read nobody answers)
+        let rk = rng.bool(); let isr = gen_isr(rng, 0x1000, rk);
+        let kbd: Vec<u8> = (0..prog.kbd_needed + rng.usize(2)).map(|_| rng.next() as u8).collect();
         let nt = rng.usize(3);
-        let timers: Vec<(u64, u32, u32, u8, bool)> = (0..nt).map(|i| { let lo = 15 + rng.below(40) as u32; (rng.next(), lo, if rng.bool() { lo } else { lo + rng.below(30) as u32 }, 2 + 2 * i as u8, rng.bool()) }).collect();
+        let timers: Vec<(u64, u32, u32, u8, bool)> = (0..nt).map(|i| { let lo = 15 + rng.below(40) as u32; (match rng.below(8) { 0 => 0, 1 => u64::MAX, _ => rng.next() }, lo, if rng.bool() { lo } else { lo + rng.below(30) as u32 }, 2 + 2 * i as u8, rng.bool()) }).collect();
         let real = rng.bool();
         let (Some(mut a), Some(mut b)) = (mk31(&prog.text, &isr, init, real, &kbd, &timers), mk31(&prog.text, &isr, init, real, &kbd, &timers)) else { ctx.count("not-assembled"); return };
         let case = || Json::obj().set("program", prog.text.as_str()).set("init", format!("{init:?}")).set("timers", format!("{timers:?}")).set("kbd", format!("{kbd:?}")).set("real_traps", real);
@@ -314,7 +317,8 @@ fn run31(ctx: &mut Ctx) {
         if entries > 0 { ctx.count("runs.with-timer-interrupts"); }
         if entries > 0 && timers.iter().any(|t| t.4 && t.2 > t.1) { ctx.count("runs.with-half-open-timer-range"); }
         ctx.count(if by_run { "runs.segmented" } else { "runs.stepwise" });
-        ctx.count(match init { MachineInitStrategy::Known { .. } => "init.known", _ => "init.seeded" });
+        ctx.count(match init { MachineInitStrategy::Known { .. } => "init.known", MachineInitStrategy::Seeded { seed: 0 } => "init.seeded-with-0", _ => "init.seeded" });
+        if entries > 0 && timers.iter().any(|t| t.0 == 0 && t.2 > t.1) { ctx.count("runs.with-timer-seed-0"); }
         if ctx.want_sample() && nt > 0 && prog.text.len() < 700 { ctx.sample(case().set("steps", steps).set("timer_entries", entries)); }
     });
     known_fill(ctx);
@@ -340,7 +344,7 @@ fn known_fill(ctx: &mut Ctx) {
 fn guard31(m: &Merged, _t: Tier) -> Vec<String> {
     let mut out = vec![];
     need(m, &mut out, "known-fill.machines", 16);
-    for k in ["runs.with-timer-interrupts", "runs.with-half-open-timer-range", "runs.segmented", "runs.stepwise", "init.known", "init.seeded", "runs.reset-and-reload-midway", "runs.reload-midway"] { need(m, &mut out, k, 30); }
+    for k in ["runs.with-timer-interrupts", "runs.with-half-open-timer-range", "runs.segmented", "runs.stepwise", "init.known", "init.seeded", "init.seeded-with-0", "runs.with-timer-seed-0", "runs.reset-and-reload-midway", "runs.reload-midway"] { need(m, &mut out, k, 30); }
     need(m, &mut out, "steps.compared", 50_000);
     out
 }
